@@ -41,7 +41,10 @@ PLAN = {
         dict(test="TestC13R", quick=(120, 10), thorough=(1500, 8), race=True, timeout=1500, timeout_thorough=7200),
         dict(test="TestC13S", quick=(2000, 6), thorough=(40000, 8), timeout_thorough=7200),
     ],
-    "C14": [dict(test="TestC14R", quick=(150, 16), thorough=(1500, 16), race=True, timeout=1500, timeout_thorough=7200)],
+    "C14": [
+        dict(test="TestC14R", quick=(150, 16), thorough=(1500, 16), race=True, timeout=1500, timeout_thorough=7200),
+        dict(test="TestC14S", quick=(1500, 6), thorough=(30000, 8), timeout_thorough=7200),
+    ],
     "C15": [
         dict(test="TestC15Exhaustive", kind="plain", quick=(0, 1), thorough=(0, 1), timeout_thorough=3600),
         dict(test="TestC15Registry", quick=(20000, 3), thorough=(400000, 4)),
@@ -56,9 +59,13 @@ PLAN = {
         dict(test="TestC19Formula", quick=(30000, 2), thorough=(1000000, 4)),
         dict(test="TestC19Trigger", quick=(25, 8), thorough=(600, 8), timeout=1500, timeout_thorough=7200),
         dict(test="TestC19Node", quick=(8, 4), thorough=(150, 4), timeout=1500, timeout_thorough=7200),
+        # the trigger's way through the two loops (fake scheduler, gated SPIs): a trigger for the current position is never lost
+        dict(test="TestC19R", quick=(60, 8), thorough=(1000, 8), race=True, timeout=1500, timeout_thorough=7200),
     ],
     "C20": [
         dict(test="TestC20", quick=(6000, 16), thorough=(200000, 16), timeout_thorough=7200),
+        # what correct nodes actually put on the wire in generated cluster executions (votes and proofs nested from stored messages)
+        dict(test="TestC20S", quick=(1200, 8), thorough=(30000, 8), timeout_thorough=7200),
         dict(test="FuzzC20", kind="fuzz", fuzztime=180),
     ],
     "C16": [dict(test="TestC16R", quick=(120, 16), thorough=(1500, 16), race=True, timeout=1500, timeout_thorough=7200)],
